@@ -202,4 +202,32 @@ CHECKS = {
                      "the prior's own value and gradient are taken from the library (C09 is not claimed)",
                      "inputs and configurations are sampled; the order-of-first-use and thread clauses are what the simulation decides"],
     ),
+    "C14": dict(
+        level="exploration",
+        parts=[dict(harness="chk_C14", variant="seq", src="checks/chk_C14.cpp",
+                    runs=dict(quick=6000, thorough=300000), wall_cap=dict(quick=110, thorough=2400)),
+               dict(harness="chk_C14", variant="omp", src="checks/chk_C14.cpp",
+                    runs=dict(quick=1500, thorough=60000), wall_cap=dict(quick=70, thorough=1500))],
+        rule=("seq part: one case = generated scanner (detectors, rings, TOF), histogram template (span, view mashing, TOF mashing, truncated "
+              "tangential and segment ranges, max segment), a seeded script of up to 600 records (time marks of the simulated scanner clock "
+              "at irregular intervals, prompts and delayeds on random detector pairs / TOF indices incl. out-of-range ones, events before the "
+              "first time mark, bursts without time marks) and one class: histogram (every frame of a drawn partition, boundaries preferably "
+              "exactly on time marks, with all segments in memory and with drawn num_segments_in_memory / num_TOF_bins_in_memory, the whole "
+              "interval, one multi-frame run writing files); eof (the source ends after record k); cutoff (num_events_to_store); "
+              "lm_gradient (list-mode objective function with a small event cache -> several cache files, optional second object re-using "
+              "them, vs the projection-data objective function of the histogram: sensitivity, gradient, gradient+sensitivity, Hessian x "
+              "vector).  omp part: list-mode sensitivity / gradient / value / Hessian product with 2..16 simulated threads vs one thread.  "
+              "Non-trivial: every run (omp: >= 1 context switch); distinct = event-log hash / schedule hash."),
+        components=dict(real=REAL_COMMON + ["LmToProjData (frame loop, segment/TOF batches, rewind through saved positions, cut-off), "
+                                            "CListEventScannerWithDiscreteDetectors::get_bin, ProjDataInfo bin mapping, ProjDataInMemory / Interfile output, "
+                                            "PoissonLogLikelihoodWithLinearModelForMeanAndListModeDataWithProjMatrixByBin incl. its cache files, LM_distributable_computation"],
+                        stub=["the list-mode source: SimListModeData (scripted records behind the ListModeData interface; end of data at a chosen record)",
+                              "independent per-event count (oracle)"] + STUB_IO + ["omp part: libgomp and libtsan replaced by simgomp/simtsan"]),
+        assumptions=["an event belongs to the frame that contains the time of the last time mark before it (0 before the first one), as the "
+                     "class documentation states for chronological list-mode data", "the bin of an event is taken from the template's own "
+                     "get_bin_for_det_pos_pair (C01 is not claimed)", "list-mode likelihood: prompts only, same matrix / additive term / "
+                     "normalisation for both objective functions; non-TOF normalisation data", "a torn or truncated cache FILE is not part of "
+                     "the check (the format has no length information; the property does not speak about it)"],
+        distinct_by_hash=True,
+    ),
 }
